@@ -8,13 +8,13 @@ import SqLemmas.ParseNames
 namespace Sq.Inv
 
 variable {Pc : List Op → Op → Nat → Prop} {Pb : String → Prop} {Pq : String → Prop}
-variable {Po : Op → Prop} {Pn : Name → Prop}
+variable {Po : Op → Prop} {Pn : Name → Prop} {Psh : Prop}
 local notation "NP" => NPg Pc Pb Pq
 local notation "PD" => PDg Pc Pb Pq
-local notation "FrameP" => FramePg Po Pn
+local notation "FrameP" => FramePg Po Pn Psh
 local notation "CtlP" => CtlPg Po
-local notation "CoreNP" => CoreNPg Pc Pb Pq Po Pn
-local notation "CorePD" => CorePDg Pc Pb Pq Po Pn
+local notation "CoreNP" => CoreNPg Pc Pb Pq Po Pn Psh
+local notation "CorePD" => CorePDg Pc Pb Pq Po Pn Psh
 local notation "WorldNP" => WorldNPg Pc Pb Pq
 local notation "WorldPD" => WorldPDg Pc Pb Pq
 
@@ -74,11 +74,11 @@ theorem core_pd (hq : ∀ q, Pq q) {c : Core} (h : CoreNP c) : CorePD c := by
   | failed e => trivial
 
 /-- **the invariant is inductive**: one machine step preserves it … -/
-theorem inv_step' (hok : OpsOK Pc Pb Po Pn) (hq : ∀ q, Pq q) (budgets : List Nat) (c : Core) (hc : CoreNP c) :
+theorem inv_step' (hok : OpsOK Pc Pb Po Pn Psh) (hq : ∀ q, Pq q) (budgets : List Nat) (c : Core) (hc : CoreNP c) :
     CoreNP (stepCore budgets c) := inv_step hok budgets c (core_pd hq hc)
 
 /-- … hence every configuration of every run satisfies it -/
-theorem inv_run (hok : OpsOK Pc Pb Po Pn) (hq : ∀ q, Pq q) (c : Cfg) (h0 : CoreNP c.core) :
+theorem inv_run (hok : OpsOK Pc Pb Po Pn Psh) (hq : ∀ q, Pq q) (c : Cfg) (h0 : CoreNP c.core) :
     ∀ i, CoreNP (run i c).core := by
   intro i
   induction i with
@@ -141,11 +141,11 @@ def lookupOf (c : Core) : Option Name :=
 def MentionsIn (S : Name → Prop) (op : Op) : Prop := ∀ x, Mentions op x → S x
 
 theorem opsOK_names (S : Name → Prop) :
-    OpsOK (fun _ body _ => MentionsIn S body) (fun _ => True) (MentionsIn S) S where
+    OpsOK (fun _ body _ => MentionsIn S body) (fun _ => True) (MentionsIn S) S True where
   builtin := fun _ _ _ => trivial
   name := fun n h => h n .name
   call := fun n args h => ⟨h n .callee, fun a ha x hx => h x (.arg ha hx)⟩
-  short := fun n k v h => ⟨h n .shortTarget, fun x hx => h x (.shortVal hx)⟩
+  short := fun n k v h => ⟨trivial, h n .shortTarget, fun x hx => h x (.shortVal hx)⟩
   assign := fun n v h x hx => h x (.assigned hx)
   lambda := fun ps body _ h x hx => h x (.body hx)
   body := fun _ _ _ h => h
@@ -159,7 +159,7 @@ theorem opsOK_names (S : Name → Prop) :
 /-- the invariant instantiated: every closure anywhere in the configuration has a body mentioning only names in `S`,
     every pending node mentions only names in `S`, every pending call / compound-assignment name is in `S` -/
 abbrev NamesInv (S : Name → Prop) (c : Core) : Prop :=
-  CoreNPg (fun _ body _ => MentionsIn S body) (fun _ => True) (fun _ => True) (MentionsIn S) S c
+  CoreNPg (fun _ body _ => MentionsIn S body) (fun _ => True) (fun _ => True) (MentionsIn S) S True c
 
 theorem lookup_in (S : Name → Prop) {c : Core} (h : NamesInv S c) {n : Name} (hl : lookupOf c = some n) : S n := by
   unfold lookupOf at hl
@@ -180,7 +180,7 @@ theorem lookup_in (S : Name → Prop) {c : Core} (h : NamesInv S c) {n : Name} (
   · rename_i v n' sk vm k hc hk
     cases hl
     have := h.frames (.shortK n sk vm) (by rw [hk]; simp)
-    exact this
+    exact this.2
   · cases hl
 
 /-- **every lookup of every run is for a name in `S`**, given that the initial configuration satisfies the invariant -/
